@@ -338,6 +338,10 @@ def task_section(pr, repo):
     pr.explore(ex, thunk, SEC)
 
 
+QUERIES = ['propka.molecular_container.MolecularContainer.get_charge_profile', 'propka.molecular_container.MolecularContainer.get_pi',
+           'propka.conformation_container.ConformationContainer.calculate_charge', 'propka.group.Group.calculate_charge']
+
+
 def run(pr, repo):
     from . import C10
     # the profile is reported AT the grid values min + i*step that make_grid yields (its contract: C10-MG)
@@ -347,6 +351,9 @@ def run(pr, repo):
                  # the reported (averaged) container holds every titratable group - also one discarded due to coupling (C14-UC)
                  (C14.task_init_group, ())])
     pr.assumptions.append('|q*(pK-pH)| small enough that 10**x does not overflow (x < 308)')
+    # the curves are asked for repeatedly, for several conformations and windows, on one container: the queries keep no state
+    from . import frames
+    frames.query_is_pure(pr, repo, QUERIES, 'charge queries (profile, pI, container and group charge)')
     bounded(pr)
 
 
